@@ -3,6 +3,7 @@
 # Confirms in the agent's scratch worktree: unit tests pass with the defect (demo excluded), the demo fails with it and passes without it.
 ID=$1; FILTER=${2:-seeded_demo}; PKG=${PKG:--p worterbuch --lib}
 D=/tmp/seed-$ID; W=$D/wt; export CARGO_TARGET_DIR=$D/target
+[ -z "${PKG_SET:-}" ] && M=$(jq -r '.demo_pkg // empty' $D/meta.json 2>/dev/null) && [ -n "$M" ] && PKG=$M
 cd $W || exit 2
 git checkout -q -- . && git clean -fdq -e target
 git apply $D/patch.diff || { echo "patch does not apply"; exit 2; }
